@@ -313,5 +313,16 @@ C20(i, o) ==
                      x == PostOf(o, p[1], p[2])
                  IN x.series # e.series \/ x.total # e.total}}
 
+(* C03 / C06, "further cycles then change nothing", as a property of the set of outcomes one input can have: in a      *)
+(* fault-free cycle, whether the cycle changes anything (a shard's set of targets or their states, or the scale) does    *)
+(* not depend on the order in which maps are visited or on random picks - else a cycle that changed nothing is no         *)
+(* fixpoint.  (StableKvass.tla states the same on the closed loop.)                                                       *)
+Acts(i, o) ==
+  \/ \E k \in Sh(i) : /\ Sent(o, k) /\ o.posts[k].ok
+                        /\ {<<x.t, x.state>> : x \in PostRecs(o, k)} # {<<r.t, r.state>> : r \in RepRecs(i, k)}
+  \/ Len(o.scales) > 0 /\ o.scales[Len(o.scales)] # NSh(i)
+FaultFree(i) == i.failScale = 0 /\ \A k \in Sh(i) : i.shards[k].mode = "ok" /\ ~i.shards[k].postFail
+OrderDependent(i, outs) == FaultFree(i) /\ Cardinality({Acts(i, o) : o \in outs}) = 2
+
 All(i, o) == [C01 |-> C01(i, o), C03 |-> C03(i, o), C04 |-> C04(i, o), C05 |-> C05(i, o), C07 |-> C07(i, o), C08 |-> C08(i, o), C20 |-> C20(i, o)]
 =============================================================================
